@@ -4,6 +4,7 @@ package props
 
 import (
 	"fmt"
+	"image/color"
 	"testing"
 
 	"github.com/boombuler/barcode"
@@ -15,11 +16,12 @@ import (
 )
 
 type C14Case struct {
-	Kind      string `json:"kind"` // ean, code128, code39
-	Content   BStr   `json:"content"`
-	Checksum  bool   `json:"checksum"`   // code39: draw the check character
-	FullASCII bool   `json:"full_ascii"` // code39
-	Scales    []int  `json:"scales"`     // per round: extra width in pixels added to factor*width; factor = 1 + extra%3
+	Kind      string      `json:"kind"` // ean, code128, code39, code128nc (no-checksum variant: judged only if it exposes CheckSum())
+	Content   BStr        `json:"content"`
+	Scheme    *SchemeSpec `json:"scheme,omitempty"` // non-nil: the WithColor entry point
+	Checksum  bool        `json:"checksum"`         // code39: draw the check character
+	FullASCII bool        `json:"full_ascii"`       // code39
+	Scales    []int       `json:"scales"`           // per round: extra width in pixels added to factor*width; factor = 1 + extra%3
 }
 
 // checkC14 returns false when the encoder rejected the input (trivial case).
@@ -29,14 +31,34 @@ func checkC14(t TB, c C14Case) bool {
 	s := string(c.Content)
 	var bc barcode.BarcodeIntCS
 	var err error
+	cs := barcode.ColorScheme{Model: color.Gray16Model, Background: color.White, Foreground: color.Black}
+	if c.Scheme != nil {
+		cs = c.Scheme.Scheme()
+	}
 	if pv := try(func() {
-		switch c.Kind {
-		case "ean":
+		switch {
+		case c.Kind == "ean" && c.Scheme == nil:
 			bc, err = ean.Encode(s)
-		case "code128":
+		case c.Kind == "ean":
+			bc, err = ean.EncodeWithColor(s, cs)
+		case c.Kind == "code128" && c.Scheme == nil:
 			bc, err = code128.Encode(s)
-		case "code39":
+		case c.Kind == "code128":
+			bc, err = code128.EncodeWithColor(s, cs)
+		case c.Kind == "code128nc":
+			var plain barcode.Barcode
+			if c.Scheme == nil {
+				plain, err = code128.EncodeWithoutChecksum(s)
+			} else {
+				plain, err = code128.EncodeWithoutChecksumWithColor(s, cs)
+			}
+			if err == nil && !nilBarcode(plain) {
+				bc, _ = plain.(barcode.BarcodeIntCS) // stays nil when no checksum is exposed: nothing to judge
+			}
+		case c.Kind == "code39" && c.Scheme == nil:
 			bc, err = code39.Encode(s, c.Checksum, c.FullASCII)
+		case c.Kind == "code39":
+			bc, err = code39.EncodeWithColor(s, c.Checksum, c.FullASCII, cs)
 		}
 	}); pv != nil {
 		failf(t, P, K, c, "%v", pv)
@@ -44,10 +66,15 @@ func checkC14(t TB, c C14Case) bool {
 	if err != nil || nilBarcode(bc) {
 		return false
 	}
-	m, merr := modules1D(bc)
+	var m []bool
+	pat, merr := pattern(bc, cs)
 	if merr != nil {
 		failf(t, P, K, c, "%v", merr)
 	}
+	if len(pat) != 1 {
+		failf(t, P, K, c, "a 1D symbol with %d rows", len(pat))
+	}
+	m = pat[0]
 	var want int
 	switch c.Kind {
 	case "ean":
@@ -72,6 +99,12 @@ func checkC14(t TB, c C14Case) bool {
 		if res.Check != want {
 			failf(t, P, K, c, "drawn check character has value %d, modulo-103 sum of the symbol is %d", res.Check, want)
 		}
+	case "code128nc": // exposes a checksum although it draws none: it must still be the modulo-103 value of its symbols
+		res, derr := ref.DecodeCode128(m, false)
+		if derr != nil {
+			failf(t, P, K, c, "reference decoder: %v", derr)
+		}
+		want = res.WantSum
 	case "code39":
 		raw, derr := ref.DecodeCode39Raw(m)
 		if derr != nil {
@@ -97,7 +130,16 @@ func checkC14(t TB, c C14Case) bool {
 		h := 1 + extra%7
 		var next barcode.Barcode
 		var serr error
-		if pv := try(func() { next, serr = barcode.Scale(cur, w, h) }); pv != nil {
+		if pv := try(func() {
+			switch extra % 4 {
+			case 1: // a fill colour outside the barcode's colour model
+				next, serr = barcode.ScaleWithFill(cur, w, h, color.RGBA{R: 255, A: 255})
+			case 3:
+				next, serr = barcode.ScaleWithFill(cur, w, h, color.Transparent)
+			default:
+				next, serr = barcode.Scale(cur, w, h)
+			}
+		}); pv != nil {
 			failf(t, P, K, c, "Scale round %d: %v", round, pv)
 		}
 		if serr != nil || nilBarcode(next) {
@@ -122,11 +164,14 @@ func checkC14(t TB, c C14Case) bool {
 func init() { register("checksum", func(t TB, c C14Case) { checkC14(t, c) }) }
 
 func genC14(t *rapid.T) C14Case {
-	c := C14Case{Kind: rapid.SampledFrom([]string{"ean", "code128", "code39"}).Draw(t, "kind")}
+	c := C14Case{Kind: rapid.SampledFrom([]string{"ean", "code128", "code39", "code128nc", "ean", "code128", "code39"}).Draw(t, "kind")}
+	if rapid.IntRange(0, 3).Draw(t, "coloured") == 0 {
+		c.Scheme = genScheme(t)
+	}
 	switch c.Kind {
 	case "ean":
 		c.Content = BStr(genEAN(t))
-	case "code128":
+	case "code128", "code128nc":
 		c.Content = BStr(genCode128Text(t))
 	case "code39":
 		k := genC39(t)
